@@ -359,6 +359,15 @@ def keyfn(tag, inp, exp, got):
         mag = {'in': 'small', 'out': 'small', 'neg-in': 'small', 'neg-out': 'small', 'neg': 'small', 'nonneg': 'small',
                'big+': 'big', 'big-': 'big'}
         classes = sorted(set(mag.get(c, c) for c in classes))
+        if re.search(r'(?<!s)size_t|ulonglong', tag.split('/')[1]) and not div.endswith('OverflowError'):
+            # an UNSIGNED C bound above PY_SSIZE_T_MAX is cast to a negative Py_ssize_t: its own class, distinct from the
+            # signed-limit class below (which is where an out-of-bounds regression of the slice cropping would show)
+            try:
+                vals = [eval(e, g5.namespace()) for e in idx]
+            except Exception:
+                vals = []
+            if any(type(v) is int and v > 2 ** 63 - 1 for v in vals):
+                return '%s/%s|unsigned-bound-above-ssize_t-max|wrong-slice' % (op, 'typed' if recv != 'obj' else 'obj')
         if any(c.startswith('huge') for c in classes) and (recv != 'obj' or has_c):
             # a bound at/beyond the Py_ssize_t limits (typed receiver, or a C-typed bound on any receiver): the index
             # form, the container and the other bound do not matter; "got OverflowError" and "anything else" (wrong
